@@ -13,12 +13,14 @@ PROP = dict(
             dict(name="ack", pkg="internal/ackhandler", test="TestVerifC05Ack", files=["mc/c05/ack/*.go"],
                  parts=["pn-codec", "pngen", "sph-pn", "sph-pn-server", "sph-pn-edge", "sph-pn-uquic"]),
         ],
-        level_text="Bounded-exhaustive differential checking of the real packet protection code (handshake.NewInitialAEAD, the sealers/openers, the header protectors, packetPacker.encryptPacket + packetUnpacker, GetRetryIntegrityTag, protocol.DecodePacketNumber / PacketNumberLengthForHeader) against an independent RFC 9001 / 9369 / 9000-A implementation (mc/lib/ref5, validated against the RFC test vectors on every run), plus explicit-state BFS over two real updatableAEADs (key-update state machine with reordering, loss, ACKs, timer steps and an adversary) and over the real sentPacketHandler / packet number generators. Every transition runs the real code, so there is no model/code gap. Right level because the property quantifies over inputs (CIDs, sizes, packet numbers) and over histories (key updates, reordering), which are finite on the small windows chosen around the boundaries in the code.",
-        level_note="Trusted: the independent reference ref5 (cross-checked against RFC 9001 App. A and RFC 9369 App. A vectors, AEAD-authenticated), the key-update reference model in mc/c05/hs (phase ledger), Go's crypto primitives (shared by both sides: AES, GCM, ChaCha20, Poly1305, HMAC, SHA-2). Three byte patterns per connection ID length instead of all 2^160 CIDs; single-bit flips and truncations only (no multi-bit tampering); the random skip distance of the packet number generator is replaced by an enumerated choice of its smallest values.",
+        level_text="Bounded-exhaustive differential checking of the real packet protection code (handshake.NewInitialAEAD, the sealers/openers, the header protectors, packetPacker.encryptPacket + packetUnpacker, GetRetryIntegrityTag, protocol.DecodePacketNumber / PacketNumberLengthForHeader) against an independent RFC 9001 / 9369 / 9000-A implementation (mc/lib/ref5, validated against the RFC test vectors on every run), plus explicit-state BFS over two real updatableAEADs (key-update state machine with reordering, loss, ACKs, timer steps, an adversary holding the keys [premature key update, terminal] and an adversary without keys that may, in EVERY state and any number of times, hand a receiver a modified copy of any packet in flight [key phase bit or tag bit flipped] or a made-up packet [key phase bit of the receiver's current or next phase, packet number 0 or 2^30]; such packets must be rejected, the reference model ignores them, and every later genuine packet, key update and drop-timer expiry is judged as if they had never arrived - so a rejected packet arriving as the first packet of a key phase, right after a local update or before the peer's update must not change how authentic packets are opened) and over the real sentPacketHandler / packet number generators. Every transition runs the real code, so there is no model/code gap. Right level because the property quantifies over inputs (CIDs, sizes, packet numbers) and over histories (key updates, reordering), which are finite on the small windows chosen around the boundaries in the code.",
+        level_note="Trusted: the independent reference ref5 (cross-checked against RFC 9001 App. A and RFC 9369 App. A vectors, AEAD-authenticated), the key-update reference model in mc/c05/hs (phase ledger), Go's crypto primitives (shared by both sides: AES, GCM, ChaCha20, Poly1305, HMAC, SHA-2). Three byte patterns per connection ID length instead of all 2^160 CIDs; single-bit flips and truncations only (no multi-bit tampering); in the key-update BFS the keyless adversary's packets are two modifications per packet in flight and four made-up headers per direction (key phase bit current|next x packet number 0|2^30), always with intact header protection so that the chosen header fields reach Open; the random skip distance of the packet number generator is replaced by an enumerated choice of its smallest values.",
         technique="bounded-exhaustive differential testing against an independent reference + explicit-state BFS over the real implementation",
         deadline=dict(quick=80, thorough=850),
-        rule="case enumeration (RunCases) for the input-quantified parts, explicit-state BFS (fresh instance + replay of the shortest path + one op) for the history-quantified parts",
+        rule="case enumeration (RunCases) for the input-quantified parts, explicit-state BFS (fresh instance + replay of the shortest path + one op) for the history-quantified parts; in the key-update BFS the operations of the keyless adversary (adv-tamper, adv-inject) and the clock step are enabled in every state and are not terminal",
         assumptions=["packet number decoding is required only for num_unacked <= 2^31 (beyond that RFC 9000 offers no encoding)",
                      "uQUIC Initial packet-number-length overrides are checked for the configurations the in-tree parrots use and small variations of them (base <= 2); larger InitPacketNumber values with a 1-byte override belong to C10",
-                     "old read keys may legitimately be gone once a further key update happened or 3*PTO after the first packet of the new phase was received"],
+                     "old read keys may legitimately be gone once a further key update happened or 3*PTO after the first AUTHENTIC packet of the new phase was received; a packet that fails authentication neither starts that timer nor counts as the first packet of a phase",
+                     "the AEAD invalid-packet limit (2^36 / 2^52 failed openings) is out of reach within the depth bound; updatableAEAD.invalidPacketCount is therefore not part of the BFS state key",
+                     "a made-up packet is sealed with a key generation the receiver never holds (generation 15; the BFS stops sending at phase 13) and carries correct header protection: the worst case of what random bytes can unmask to"],
     )
